@@ -230,7 +230,7 @@ def run(check, tier, seed, workers=None, time_cap=None, stop_on_violation=True, 
             chunks = _chunks(frontier, workers, rng)
             stopped = False
             with multiprocessing.get_context("fork").Pool(workers) as pool:
-                for out in pool.imap(_expand_chunk, [(si, c) for c in chunks]):
+                for out in _imap_guarded(pool, check, si, space, chunks, res, log):
                     for hist, oi, status, dg, viols, counts, obs in out:
                         op = space.alphabet[oi]
                         if status == "disabled":
@@ -299,6 +299,63 @@ def run(check, tier, seed, workers=None, time_cap=None, stop_on_violation=True, 
     return res
 
 
+CHUNK_TIMEOUT = float(os.environ.get("VERIF_CHUNK_TIMEOUT", "600"))
+ONE_TIMEOUT = float(os.environ.get("VERIF_ONE_TIMEOUT", "60"))
+
+
+def _isolated(check, space, hist):
+    """Evaluate one history in a process of its own; returns 'ok' / 'hang' / 'died'."""
+    ctx_ = multiprocessing.get_context("fork")
+
+    def target():
+        try:
+            _evaluate(check, space, hist, set(), set())
+        finally:
+            os._exit(0)
+
+    p = ctx_.Process(target=target)
+    p.start()
+    p.join(ONE_TIMEOUT)
+    if p.is_alive():
+        p.kill()
+        p.join()
+        return "hang"
+    return "ok" if p.exitcode == 0 else "died"
+
+
+def _imap_guarded(pool, check, si, space, chunks, res, log):
+    """pool.imap with a watchdog: a worker that hangs or dies (an endless loop, a blown
+    stack or memory inside the tree under check) would block the pool for ever. After
+    CHUNK_TIMEOUT seconds without a result the pool is abandoned, every history of the
+    pending chunk is re-run in a process of its own, and the one that hangs or kills its
+    process is reported as a violation."""
+    it = pool.imap(_expand_chunk, [(si, c) for c in chunks])
+    idx = 0
+    while True:
+        try:
+            out = it.next(timeout=CHUNK_TIMEOUT)
+        except StopIteration:
+            return
+        except multiprocessing.TimeoutError:
+            pool.terminate()
+            log("  [%s] no result for %.0fs: looking for the history that hangs or kills its process" % (check.pid, CHUNK_TIMEOUT))
+            found = False
+            for hist in chunks[idx] if idx < len(chunks) else []:
+                for op in space.alphabet:
+                    verdict = _isolated(check, space, hist + (op,))
+                    if verdict != "ok":
+                        res.violations.append({"oracle": "request-hangs" if verdict == "hang" else "request-kills-process", "message": "executing and querying this history does not come back within %.0fs (%s)" % (ONE_TIMEOUT, verdict), "space_index": si, "space": space.name, "history": hist + (op,)})
+                        found = True
+                        break
+                if found:
+                    break
+            if not found:
+                res.violations.append({"oracle": "harness-error", "message": "a worker stopped answering but no single history of the pending chunk hangs on its own", "space_index": si, "space": space.name, "history": ()})
+            return
+        idx += 1
+        yield out
+
+
 def _chunks(frontier, workers, rng):
     n = len(frontier)
     size = max(1, min(64, n // (workers * 4) or 1))
@@ -314,8 +371,11 @@ def _absorb(res, space, hist, op, ctx, si):
         res.violations.append({"oracle": oracle, "message": msg, "space_index": si, "space": space.name, "history": hist})
 
 
-def replay(check, space, hist):
+def replay(check, space, hist, isolated_for=None):
     """Re-execute one history without the explorer; returns the list of violations (tags)."""
+    if isolated_for in ("request-hangs", "request-kills-process"):
+        verdict = _isolated(check, space, tuple(hist))
+        return [] if verdict == "ok" else [("request-hangs" if verdict == "hang" else "request-kills-process", "does not come back (%s)" % verdict, None)]
     ctx = Ctx()
     w, tr = check.make_world(space.cfg, tuple(hist))
     if w is None:
